@@ -97,7 +97,8 @@ int disasm_ebpf(
 
   strcpy(instruction, "???");
 
-  return 2;
+  // An unknown opcode still takes up one 64 bit instruction slot.
+  return 8;
 }
 
 void list_output_ebpf(
